@@ -1,6 +1,6 @@
 (* Corr/LsmRun.v — correspondence evaluator for the L1 model (shared by C01, C03, C06): point reads on
    dumped states, recomputation of every observed table compaction, well-formedness of dumped versions. *)
-From GL Require Import Base.Bytes Codec.IKey Corr.Cmps Gen.Consts Gen.Inst Lsm.Lsm Lsm.Compact.
+From GL Require Import Base.Bytes Codec.IKey Corr.Cmps Gen.Consts Gen.Inst Lsm.Lsm Lsm.Compact Lsm.CompactPre.
 From Coq Require Import String.
 
 Inductive kentry := KE (uk : string) (seq kind : N) (val : string).
@@ -36,6 +36,16 @@ Definition opt_eqb (a : option bytes) (b : option string) : bool :=
   | _, _ => false
   end.
 
+(* The certificates re-checked on dumped versions / observed compactions.  Under the NON-INJECTIVE comparer (id 4,
+   ASCII case-insensitive) "same user key" is the comparer's equivalence: the class-based booleans of Lsm/CompactPre.v,
+   whose soundness (WfPreProofs.wf_versioncb_sound / certificatec_sound, Props/C01.v) needs the preorder contract only.
+   Under the injective comparers 0..3 the byte-equality booleans of Lsm/Compact.v (WfProofs / CertProofs). *)
+Definition wfb (cid : N) (c : comparer) (lvls : list (list table)) : bool :=
+  if cid =? 4 then wf_versioncb c kp lvls else wf_versionb c kp lvls.
+Definition certb (cid : N) (c : comparer) (minSeq : N) (deeper : list (list table)) (I O : list entry)
+           (outs : list (list entry)) : bool :=
+  if cid =? 4 then compaction_certc c kp minSeq deeper I O outs else compaction_cert c kp minSeq deeper I O outs.
+
 Definition run_case (cs : lsmcase) : bool :=
   match cs with
   | KGet cid mem frozen aux lvls qs =>
@@ -53,11 +63,11 @@ Definition run_case (cs : lsmcase) : bool :=
       let O := level_entries others in
       let deeper := skipn (N.to_nat srclevel + 2) lvls in
       let outs := map (fun t => t_entries (to_table t)) outputs in
-      wf_versionb c kp lvls
-      && compaction_cert c kp minSeq deeper I O outs
+      wfb cid c lvls
+      && certb cid c minSeq deeper I O outs
       && entries_eqb (List.concat outs) (drop_run c kp minSeq (is_base c deeper) None (isort c I))
       && cuts_ok c outs
-  | KWf cid lvls => wf_versionb (cmp_of_id cid) kp (to_levels lvls)
+  | KWf cid lvls => wfb cid (cmp_of_id cid) (to_levels lvls)
   end.
 
 Fixpoint mism_from {A} (f : A -> bool) (i : N) (l : list A) : list N :=
